@@ -3,6 +3,8 @@
 (* class of every field, the model's encoding, trailing byte count, the    *)
 (* corruption) with the expected outcome of the intended decoder: outcome  *)
 (* class, bytes consumed and the field at which decoding stopped.          *)
+(* Only the environment moves here (Corrupt); the decoder's run on every   *)
+(* case is folded into Final.                                              *)
 EXTENDS Codec, Json
 
 Line ==
@@ -10,7 +12,6 @@ Line ==
   [rec |-> case.rec, cls |-> case.cv, enc |-> case.enc, rest |-> case.rest, c |-> case.c,
    exp |-> [outcome |-> fin.outcome, pos |-> fin.pos, fi |-> fin.fi]]
 
-GNext == UNCHANGED vars
-GSpec == Init /\ [][GNext]_vars
+GSpec == Init /\ [][Corrupt]_vars
 Emit == PrintT(<<"REPLAY", ToJson(Line)>>)
 =============================================================================
